@@ -110,8 +110,11 @@ func (cs *cmpSpec) tokenSig(src []byte, s, r []Tok, i, j int) (string, string) {
 		}
 		return fmt.Sprintf("first-divergence: prev=%s %s=%s %s=%s", prev, cs.subj, other(sk), cs.ref, other(rk)), detail
 	}
-	if sk == "UNIT" && (rk == "IDENT" || keywordSet[rk]) {
-		rk = "IDENT" // the unit's letters are an identifier or a keyword for a scanner without units
+	// one root cause (scanNumber reads the identifier that follows a number as a suffix): the letters are a
+	// unit where the reference sees an identifier / keyword, or, if they start with i, an imaginary suffix
+	if (sk == "UNIT" && (rk == "IDENT" || keywordSet[rk])) ||
+		((sk == "INT" || sk == "FLOAT") && rk == "IMAG" && i+1 < len(s) && s[i+1].Kind == "UNIT") {
+		return fmt.Sprintf("first-divergence: number-suffix %s=UNIT %s=IDENT|IMAG", cs.subj, cs.ref), detail
 	}
 	return fmt.Sprintf("first-divergence: %s=%s %s=%s", cs.subj, numClass(sk, rk), cs.ref, numClass(rk, sk)), detail
 }
